@@ -76,7 +76,8 @@ def gen_cases(tier, seed):
         shift = None if sk == 0 else (halfs[rng.integers(8)] if sk in (1, 2) else ([[0.25, 0.25, 0.25], [0.1, 0.0, 0.0], [0.37, 0.12, 0.0]][rng.integers(3)] if sk == 3 else [0.5, 0.5, 0.5]))
         cases.append({"kind": "phonon", "crystal": {"name": name, "order": ["asis", "random"][rng.integers(2)], "order_seed": int(rng.integers(100))},
                       "mesh": mesh if rng.integers(6) else float(rng.uniform(8, 20)), "shift": shift, "gamma": bool(rng.integers(2)), "tr": bool(rng.integers(4) != 0),
-                      "iter": bool(rng.integers(4) == 0), "_cost": 4})
+                      "iter": bool(rng.integers(4) == 0), "_cost": 4,
+                      "nac": [None, "wang", "gonze"][rng.integers(3)] if name in ("rocksalt", "wurtzite", "zincblende", "rutile", "tric2") else None, "nseed": int(rng.integers(10 ** 6))})
     return cases
 
 
@@ -230,6 +231,12 @@ def run_case(c):
     if np.abs(fc).max() < 1e-8:
         return {"skip": "no interaction"}
     ph.force_constants = fc
+    if c.get("nac"):
+        # (the Wang dynamical matrix is not periodic in q: reduced and full mesh must be evaluated at the same first-zone images)
+        from vlib.gen import nac as nacgen
+
+        ph.nac_params = nacgen.random_nac(ph, np.random.default_rng(c.get("nseed", 0)), method=c["nac"])
+    obs["phonon_nac_" + str(c.get("nac"))] = 1
     mesh, shift, gamma, tr = c["mesh"], c["shift"], c["gamma"], c["tr"]
     res = {}
     for sym in (True, False):
@@ -259,7 +266,7 @@ def run_case(c):
             out["moment2"] = float(ph.get_moment())
         res[sym] = out
     a, b = res[True], res[False]
-    feat = dict(mesh=mesh, shift=shift, gamma=gamma, tr=tr, iter=c["iter"],
+    feat = dict(mesh=mesh, shift=shift, gamma=gamma, tr=tr, iter=c["iter"], nac=c.get("nac"),
                 arbitrary_shift=bool(shift is not None and (np.abs(np.array(shift) * 2 - np.rint(np.array(shift) * 2)) > 0.01).any()))
     for k in a:
         if k in ("n_ir",):
